@@ -2,7 +2,8 @@
 //
 // Op line:  hb <step,step,...>      one complete history on a fresh failure counter
 //
-//	step = <wallet>/<outcome>       wallet = 0..3 (distinct wallet public keys)
+//	step = <wallet>/<outcome>       wallet = 0..7 (distinct wallet public keys; wallet k+4 is the
+//	                                mirrored key of wallet k: same X, negated Y)
 //	outcome:
 //	  u    operator is unstaking (eligible stake 0)
 //	  ue   OperatorToStakingProvider fails      nr  staking provider not registered
@@ -78,11 +79,19 @@ var walletKeys []*ecdsa.PublicKey
 var walletKeyStrs []string
 
 func init() {
-	for k := 1; k <= 4; k++ {
-		x, y := tecdsa.Curve.ScalarBaseMult(big.NewInt(int64(1000 + k)).Bytes())
+	add := func(x, y *big.Int) {
 		pk := &ecdsa.PublicKey{Curve: tecdsa.Curve, X: x, Y: y}
 		walletKeys = append(walletKeys, pk)
 		walletKeyStrs = append(walletKeyStrs, hex.EncodeToString(elliptic.Marshal(tecdsa.Curve, x, y)))
+	}
+	for k := 1; k <= 4; k++ {
+		add(tecdsa.Curve.ScalarBaseMult(big.NewInt(int64(1000 + k)).Bytes()))
+	}
+	// wallets 4..7 are the mirrored keys of wallets 0..3: same X, negated Y (P and -P are
+	// different wallets whose encodings agree on the X coordinate / the first 33 bytes)
+	p := tecdsa.Curve.Params().P
+	for k := 0; k < 4; k++ {
+		add(new(big.Int).Set(walletKeys[k].X), new(big.Int).Sub(p, walletKeys[k].Y))
 	}
 }
 
@@ -259,9 +268,14 @@ func exec(op string) (string, string) {
 	if len(wallets) > 1 {
 		tags["multiwallet"] = true
 	}
+	for w := range wallets {
+		if wallets[(w+4)%8] {
+			tags["mirrored"] = true
+		}
+	}
 	var ts []string
 	for _, t := range []string{"claim", "claimfail", "low", "reset", "unstaking", "e-unstake", "e-invalid", "e-expiry",
-		"e-sign", "e-noinactive", "e-claim", "e-other", "multiwallet", "badsignargs"} {
+		"e-sign", "e-noinactive", "e-claim", "e-other", "multiwallet", "mirrored", "badsignargs"} {
 		if tags[t] {
 			ts = append(ts, t)
 		}
@@ -315,10 +329,19 @@ func gen(r *hx.Rng, n int, tier string) []string {
 	var ops []string
 	for i := 0; i < n; i++ {
 		if r.Chance(1, 30) {
-			ops = append(ops, "hb "+hx.Pick(r, []string{"0/a", "9/u", "0/a70", "1/a5i0", "x", "0/a-1i2", "0/u,,1/u"}))
+			ops = append(ops, "hb "+hx.Pick(r, []string{"0/a", "8/u", "0/a70", "1/a5i0", "x", "0/a-1i2", "0/u,,1/u"}))
 			continue
 		}
 		nw := r.Range(1, 4)
+		// wallet ids of this history: plain, or including mirrored pairs (k, k+4)
+		ids := []int{0, 1, 2, 3}
+		if r.Chance(1, 2) {
+			b := r.Intn(4)
+			ids = []int{b, b + 4, (b + 1) % 4, (b+1)%4 + 4}
+			if nw < 2 {
+				nw = 2
+			}
+		}
 		ln := r.Range(1, 14)
 		if r.Chance(1, 10) {
 			ln = r.Range(15, 50)
@@ -326,7 +349,7 @@ func gen(r *hx.Rng, n int, tier string) []string {
 		lowBias := hx.Pick(r, []int{40, 60, 75, 90})
 		var steps []string
 		for j := 0; j < ln; j++ {
-			steps = append(steps, fmt.Sprintf("%d/%s", r.Intn(nw), genOutcome(r, lowBias)))
+			steps = append(steps, fmt.Sprintf("%d/%s", ids[r.Intn(nw)], genOutcome(r, lowBias)))
 		}
 		ops = append(ops, "hb "+strings.Join(steps, ","))
 	}
